@@ -70,7 +70,10 @@ def handlers : List (String × Handler) := [
     match d, s with
     | [d0, d1, d2], [s0, s1, s2] =>
       let g : Geom := ⟨d0, d1, d2, s0, s1, s2, ← getV3 j "p"⟩
-      let st := storeStack g (← getNatList j "ks")
+      let ks ← match j.getObjVal? "flags" with
+        | .ok _ => do pure (keptPlanes (← getBoolList j "flags") (← getBool j "omit"))
+        | .error _ => getNatList j "ks"
+      let st := storeStack g ks
       pure (okJson (Json.mkObj [
         ("pos", Json.arr ((sortV3 (dedup st.pos)).map v3ToJson).toArray),
         ("iop", ratsToJson [st.rowCos.x, st.rowCos.y, st.rowCos.z, st.colCos.x, st.colCos.y, st.colCos.z]),
